@@ -815,7 +815,10 @@ pub fn check(property: &str, tier: &str, top: u64) -> i32 {
     });
     let ev_dir = format!("{root}/evidence");
     let _ = std::fs::create_dir_all(&ev_dir);
-    let _ = std::fs::write(format!("{ev_dir}/{property}.json"), serde_json::to_vec_pretty(&evidence).unwrap());
+    // tuning aids (a slice of the stages, scaled budgets) must not replace the record of a real run
+    let tuning = only_fine || std::env::var("VERIF_SCALE").is_ok();
+    let ev_name = if tuning { format!("{ev_dir}/{property}.tuning.json") } else { format!("{ev_dir}/{property}.json") };
+    let _ = std::fs::write(ev_name, serde_json::to_vec_pretty(&evidence).unwrap());
     let _ = std::fs::remove_dir_all(&scratch);
 
     println!(
